@@ -138,6 +138,13 @@ def make(i, base_seed, tier, lite_tx=False, lite_rx=False):
                         "tuple": rng.random() < 0.5})
         elif k < 0.9:
             ops.append({"op": "resend", "so": rng.random() < 0.3})
+        if rng.random() < 0.25:
+            # a call (or two) that meets a complete blackout, then the medium heals
+            ops.append({"op": "blackout", "on": True})
+            for _ in range(rng.randint(1, 2)):
+                ops.append({"op": "send", "buf": hx(common.rand_payload(rng, rng.randint(1, 32))), "fr": rng.choice([0, 0, 1]),
+                            "so": rng.random() < 0.3, "na": False})
+            ops.append({"op": "blackout", "on": False})
         else:
             if mode == "ackpl":
                 ops.append({"op": "peer", "do": "load_ack", "bufs": [hx(common.rand_payload(rng, rng.randint(1, 32))) for _ in range(rng.randint(1, 2))]})
@@ -305,6 +312,9 @@ def _run(scn, w, res):
                 for b in op["bufs"]:
                     if rx.load_ack(unhx(b), cfg["pipe"]):
                         loaded.append(unhx(b))
+            continue
+        if op["op"] == "blackout":
+            w.air.blackout = bool(op["on"])
             continue
         if op["op"] == "tx_drain":
             for _ in range(8):
